@@ -136,6 +136,11 @@ func New(path string, cache int, handles int, close func() error, drop func()) (
 		BlockCacheCapacity:     aligned256kb(cache / 2),
 		WriteBuffer:            aligned256kb(cache / 4), // Two of these are used internally
 		Filter:                 filter.NewBloomFilter(10),
+		// goleveldb writes a batch larger than the write buffer straight into a table; a value of
+		// the same key still sitting in the memtable (put there by a single oversized Put) then
+		// shadows it in Get. Small caches give write buffers of a few KiB, so keep every write on
+		// the ordinary journal + memtable path.
+		DisableLargeBatchTransaction: true,
 	})
 	if _, corrupted := err.(*errors.ErrCorrupted); corrupted {
 		db, err = leveldb.RecoverFile(path, nil)
